@@ -48,6 +48,7 @@ type Session struct {
 	Inlined  map[string]bool
 	varObjs  map[string]*types.Var // key of State.names -> the source variable (scope-aware resolution of names in clauses)
 	BlenFacts bool // the contract under verification talks about blen: give every content code its length
+	entryParams map[string]bool // parameter names of the function under verification (heap frame: objects reachable from them exist before the call)
 }
 
 type StrTable struct {
@@ -529,10 +530,54 @@ func (s *Session) load(st *State, p Ptr) Val {
 	return getPath(s.locContent(st, p.Loc), p.Path)
 }
 
+// entryRoot: the parameter of the function under verification from which a lazily materialised
+// object (name "<param>->...", "<param>[]...", "<param>.<field>->...") is reachable; "" for objects
+// made by the function itself, returned by callees, or re-materialised after a havoc.
+func (s *Session) entryRoot(name string) string {
+	end := len(name)
+	for _, sep := range []string{"->", "[]", ".", "?", "#", "@", "["} {
+		if i := strings.Index(name, sep); i >= 0 && i < end {
+			end = i
+		}
+	}
+	if root := name[:end]; !strings.Contains(root, ":") && s.entryParams[root] {
+		return root
+	}
+	return ""
+}
+
+// noteLocWrite / noteArrWrite record a write to an object that existed before the call (heap frame,
+// checked at every return against `modifies *<param>` / `modifies elems:<param>...`).
+func (s *Session) noteLocWrite(st *State, l *Loc) {
+	if l == nil {
+		return
+	}
+	if l.Glob != nil {
+		st.writes["heap:global "+l.Glob.String()] = true
+		return
+	}
+	if !l.Lazy {
+		return
+	}
+	if r := s.entryRoot(l.Name); r != "" {
+		st.writes["heap:"+l.Name] = true
+	}
+}
+
+func (s *Session) noteArrWrite(st *State, a *Arr) {
+	if a == nil || a.Fresh {
+		return
+	}
+	if r := s.entryRoot(a.Name); r != "" {
+		st.writes["heap:"+a.Name] = true
+	}
+}
+
 func (s *Session) store(st *State, p Ptr, v Val) {
 	if p.Loc == nil {
 		subsetf("store through nil pointer")
 	}
+	s.noteLocWrite(st, p.Loc)
 	st.mem[p.Loc] = setPath(s.locContent(st, p.Loc), p.Path, v)
 }
 
@@ -566,7 +611,7 @@ func (s *Session) arrContent(st *State, a *Arr) *ArrContent {
 }
 
 func (s *Session) newArr(st *State, name string, elem types.Type, zero bool) *Arr {
-	a := &Arr{Name: name, Elem: elem}
+	a := &Arr{Name: name, Elem: elem, Fresh: true}
 	c := &ArrContent{Cells: map[string]Val{}, Sym: false}
 	if sorts, ok := s.leafSorts(elem); ok {
 		var zl []string
@@ -617,6 +662,7 @@ func (s *Session) arrRead(st *State, a *Arr, idx string) Val {
 }
 
 func (s *Session) arrWrite(st *State, a *Arr, idx string, v Val) {
+	s.noteArrWrite(st, a)
 	c := s.arrContent(st, a)
 	nc := *c
 	if c.Leaves != nil {
